@@ -48,6 +48,7 @@ def add (a b : Nat) : Nat := (a + b) % two64
 def sub (a b : Nat) : Nat := (a + two64 - b % two64) % two64
 def mul (a b : Nat) : Nat := (a * b) % two64
 def div (a b : Nat) : Option Nat := if b = 0 then none else some (a / b)
+def mod (a b : Nat) : Option Nat := if b = 0 then none else some (a % b)
 end U64
 
 /-- signed → `unsigned long long` (value modulo 2^64). -/
